@@ -16,7 +16,7 @@ LEVEL = 'fault_enumeration'
 
 def sizes(ctx):
     if ctx.tier == 'quick':
-        return dict(programs=10, inputs=2, limit=120, corpus_inputs=1)
+        return dict(programs=16, inputs=2, limit=160, corpus_inputs=1)
     return dict(programs=100, inputs=6, limit=400, corpus_inputs=4)
 
 
